@@ -3,6 +3,7 @@ package main
 import (
 	"fmt"
 	"go/types"
+	"sort"
 	"strings"
 
 	"golang.org/x/tools/go/ssa"
@@ -219,7 +220,7 @@ func (fr *Frame) applyContract(spec *FuncSpec, key string, sig *types.Signature,
 		ctx := &SpecCtx{e: e, names: names, heap: pre, old: pre, pkg: spec.Pkg}
 		g := ctx.evalBool(c.Expr)
 		if e.dry == 0 {
-			e.oblige(fmt.Sprintf("%s#%spre@%s:%d", funcKey(e.top.fn), fr.callpath, site, i+1), "pre", st.reach, g, fr.pos(in.Pos()), "precondition of "+short+": "+c.Src, c.Tags)
+			e.oblige(fmt.Sprintf("%s#%spre@%s:%d", e.topKey(), fr.callpath, site, i+1), "pre", st.reach, g, fr.pos(in.Pos()), "precondition of "+short+": "+c.Src, c.Tags)
 		}
 		if g != "true" {
 			st.reach = e.define(fr.prefix+"R", "Bool", and(st.reach, g))
@@ -294,6 +295,11 @@ func (e *Enc) heapNamesUnder(pkg string, item string) []([2]string) {
 		return out
 	}
 	parts := strings.Split(item, ".")
+	if _, isPkg := e.P.Pkgs[parts[0]]; isPkg && len(parts) >= 2 {
+		if p := e.P.Pkgs[pkg]; p == nil || p.Types.Scope().Lookup(parts[0]) == nil {
+			parts = append([]string{parts[0] + "." + parts[1]}, parts[2:]...)
+		}
+	}
 	t := e.P.parseType(pkg, parts[0])
 	nt, _ := namedStruct(t)
 	if nt == nil {
@@ -338,19 +344,15 @@ func (e *Enc) resolveModifies(spec *FuncSpec, names map[string]Val, pre *Heap) (
 			continue
 		}
 		ctx := &SpecCtx{e: e, names: names, heap: pre, old: pre, pkg: spec.Pkg}
-		ov := ctx.eval(mi.Obj)
-		ct := e.P.concreteOf(ov.T)
-		nt, st := namedStruct(ct)
-		if nt == nil || ov.K != kScalar {
-			panic(fmt.Sprintf("modifies %s: object is not a struct pointer", mi.Src))
-		}
-		fi := -1
-		for i := 0; i < st.NumFields(); i++ {
-			if st.Field(i).Name() == mi.Field {
-				fi = i
-			}
-		}
+		// designator: <pointer expr>.<field path through embedded structs> ; "x.*" = every field of *x
+		chain := []string{}
+		node := mi.Obj
 		if mi.Field == "*" {
+			ov := ctx.eval(node)
+			nt, st := namedStruct(e.P.concreteOf(ov.T))
+			if nt == nil || ov.K != kScalar {
+				panic(specErr("modifies %s: object is not a struct pointer", mi.Src))
+			}
 			for i := 0; i < st.NumFields(); i++ {
 				for _, c := range flatten(st.Field(i).Type()) {
 					cells = append(cells, cellMod{fieldArr(nt, []int{i}, c.Suffix), arrSort('F', c.Sort), ov.S})
@@ -358,11 +360,53 @@ func (e *Enc) resolveModifies(spec *FuncSpec, names map[string]Val, pre *Heap) (
 			}
 			continue
 		}
-		if fi < 0 {
-			panic(fmt.Sprintf("modifies %s: no such field", mi.Src))
+		done := false
+		for node.Op == "sel" && !done {
+			chain = append([]string{node.Name}, chain...)
+			node = node.Args[0]
+			func() {
+				defer func() {
+					if r := recover(); r != nil {
+						if _, ok := r.(SpecError); !ok {
+							panic(r)
+						}
+					}
+				}()
+				ov := ctx.eval(node)
+				if ov.K != kScalar {
+					return
+				}
+				nt, _ := namedStruct(e.P.concreteOf(ov.T))
+				if nt == nil {
+					return
+				}
+				var path []int
+				cur := types.Type(nt)
+				for _, fn := range chain {
+					st, ok := cur.Underlying().(*types.Struct)
+					if !ok {
+						return
+					}
+					fi := -1
+					for i := 0; i < st.NumFields(); i++ {
+						if st.Field(i).Name() == fn {
+							fi = i
+						}
+					}
+					if fi < 0 {
+						return
+					}
+					path = append(path, fi)
+					cur = st.Field(fi).Type()
+				}
+				for _, c := range flatten(cur) {
+					cells = append(cells, cellMod{fieldArr(nt, path, c.Suffix), arrSort('F', c.Sort), ov.S})
+				}
+				done = true
+			}()
 		}
-		for _, c := range flatten(st.Field(fi).Type()) {
-			cells = append(cells, cellMod{fieldArr(nt, []int{fi}, c.Suffix), arrSort('F', c.Sort), ov.S})
+		if !done {
+			panic(specErr("modifies %s: cannot resolve designator", mi.Src))
 		}
 	}
 	return
@@ -389,6 +433,18 @@ func (e *Enc) havocModifies(spec *FuncSpec, names map[string]Val, pre, post *Hea
 		e.assume("true", sx(">=", na, pre.alloc))
 		post.alloc = na
 		e.serial++
+		for _, it := range spec.AllocList {
+			for _, ns := range e.heapNamesUnder(spec.Pkg, it) {
+				if _, w := whole[ns[0]]; w {
+					continue
+				}
+				old := e.harr(post, ns[0], ns[1])
+				nw := e.fresh(ns[0], ns[1])
+				e.assume("true", fmt.Sprintf("(forall ((r Int)) (! (=> (<= r %s) (= (select %s r) (select %s r))) :pattern ((select %s r))))", pre.alloc, nw, old, nw))
+				post.m[ns[0]] = nw
+				post.mark(ns[0], e.serial)
+			}
+		}
 	}
 }
 
@@ -500,9 +556,6 @@ func (fr *Frame) external(fn *ssa.Function, args []Val, in ssa.Instruction, st *
 		return Val{K: kNone}
 	case "time.Now", "(time.Time).UnixNano", "(time.Time).Unix", "math/rand.Seed":
 		e.note("A5: time/rand values are havoc")
-		if name == "time.Now" {
-			return Val{T: rt, K: kStruct, Fs: nil}
-		}
 		return havoc()
 	case "fmt.Println", "fmt.Printf", "fmt.Print":
 		return havoc()
@@ -522,6 +575,8 @@ func (fr *Frame) external(fn *ssa.Function, args []Val, in ssa.Instruction, st *
 		v := havoc()
 		e.assume("true", and(sx("<=", "0", v.S), sx("<", v.S, args[0].S)))
 		return v
+	case "math/rand.Shuffle":
+		return fr.shuffle(args, in, st)
 	case "errors.New":
 		v := havoc()
 		return v
@@ -530,4 +585,95 @@ func (fr *Frame) external(fn *ssa.Function, args []Val, in ssa.Instruction, st *
 		return fr.applyContract(sp, "ext."+name, fn.Signature, args, in, st)
 	}
 	panic(unsupported("external function %s", name))
+}
+
+
+// rand.Shuffle(n, swap): assumed (A5) to call swap(i, j) finitely often with 0 <= i, j < n and nothing else.
+// The closure is run once from an arbitrary intermediate state: its safety obligations are generated there,
+// and it must be a transposition of the captured slice (obligation), which makes the result a permutation.
+func (fr *Frame) shuffle(args []Val, in ssa.Instruction, st *BState) Val {
+	e := fr.e
+	e.note("A5: rand.Shuffle(n, swap) only calls swap(i, j) with 0 <= i, j < n, finitely often")
+	n := args[0].S
+	cl := args[1]
+	if cl.K != kClosure {
+		panic(unsupported("rand.Shuffle with a non-literal swap function"))
+	}
+	mk := func(hint string) Val {
+		v := e.freshVal(fr.vname2(in)+hint, tInt)
+		e.assume("true", and(sx("<=", "0", v.S), sx("<", v.S, n)))
+		return v
+	}
+	// 1. dry run: which arrays does swap write?
+	nl, no := len(e.lines), len(e.obls)
+	savedNotes := e.notes
+	e.notes = map[string]bool{}
+	e.dry++
+	ds := BState{reach: st.reach, heap: st.heap.clone()}
+	ds.heap.dirty = map[string]int{}
+	serial0 := e.serial
+	fr.callClosure(cl, []Val{mk("#di"), mk("#dj")}, in, &ds)
+	dirty := ds.heap.dirty
+	e.dry--
+	e.lines = e.lines[:nl]
+	e.obls = e.obls[:no]
+	e.notes = savedNotes
+	// 2. arbitrary intermediate state of the captured slice (everything else the closure writes is refused)
+	if len(cl.Fs) != 1 || cl.Fs[0].K != kAddr {
+		panic(unsupported("rand.Shuffle: swap closure must capture exactly one slice variable"))
+	}
+	sv := e.loadAt(st.heap, cl.Fs[0].A)
+	if sv.K != kSlice {
+		panic(unsupported("rand.Shuffle: captured variable is not a slice"))
+	}
+	pre := st.heap
+	mid := pre.clone()
+	var names []string
+	for k, v := range dirty {
+		if v <= serial0 {
+			names = append(names, k)
+		}
+	}
+	sort.Strings(names)
+	inner := map[string]string{}
+	for _, k := range names {
+		if !strings.HasPrefix(k, "E_") {
+			panic(unsupported("rand.Shuffle: swap closure writes %s", k))
+		}
+		srt := e.hsort(k)
+		compSort := strings.TrimSuffix(strings.TrimPrefix(srt, "(Array Int (Array Int "), "))")
+		inner[k] = e.fresh(k+"!shuffled", "(Array Int "+compSort+")")
+		e.hset(mid, k, srt, store(e.harr(pre, k, srt), sv.Arr, inner[k]), "")
+	}
+	ms := BState{reach: st.reach, heap: mid.clone()}
+	i, j := mk("#i"), mk("#j")
+	fr.callClosure(cl, []Val{i, j}, in, &ms)
+	// 3. the closure must be exactly the transposition (i j) of the captured slice's backing array
+	for _, k := range names {
+		srt := e.hsort(k)
+		before := e.harr(mid, k, srt)
+		after := e.harr(ms.heap, k, srt)
+		a0 := sel(before, sv.Arr)
+		want := store(before, sv.Arr, store(store(a0, i.S, sel(a0, j.S)), j.S, sel(a0, i.S)))
+		if e.dry == 0 {
+			e.oblige(fr.oname("swap"), "swap", ms.reach, eq(after, want), fr.pos(in.Pos()), "swap closure of rand.Shuffle is a transposition of elements i and j and changes nothing else ("+k+")", nil)
+		}
+		// 4. result: a permutation of the first n elements
+		e.permFacts(sel(e.harr(pre, k, srt), sv.Arr), inner[k], n)
+	}
+	st.heap = mid
+	return Val{K: kNone}
+}
+
+// permFacts: inner array `fin` is a permutation (on [0,n)) of `orig`, identical elsewhere.
+func (e *Enc) permFacts(orig, fin, n string) {
+	e.names["perm"]++
+	id := e.names["perm"]
+	pi := fmt.Sprintf("|perm.pi%d|", id)
+	pinv := fmt.Sprintf("|perm.inv%d|", id)
+	e.decls = append(e.decls, fmt.Sprintf("(declare-fun %s (Int) Int)", pi), fmt.Sprintf("(declare-fun %s (Int) Int)", pinv))
+	e.assume("true", fmt.Sprintf("(forall ((k Int)) (! (=> (and (<= 0 k) (< k %s)) (and (<= 0 (%s k)) (< (%s k) %s) (= (select %s k) (select %s (%s k))) (= (%s (%s k)) k))) :pattern ((select %s k))))", n, pi, pi, n, fin, orig, pi, pinv, pi, fin))
+	e.assume("true", fmt.Sprintf("(forall ((m Int)) (! (=> (and (<= 0 m) (< m %s)) (and (<= 0 (%s m)) (< (%s m) %s) (= (%s (%s m)) m))) :pattern ((%s m))))", n, pinv, pinv, n, pi, pinv, pinv))
+	e.assume("true", fmt.Sprintf("(forall ((k Int)) (! (=> (or (< k 0) (>= k %s)) (= (select %s k) (select %s k))) :pattern ((select %s k))))", n, fin, orig, fin))
+	e.note("lemma (meta, trusted): a finite composition of transpositions is a permutation")
 }
